@@ -231,6 +231,51 @@ def rule_6(ctx):
     ctx.floor(1, 'formula terms')
 
 
+EXTRACT_SHEETS = {
+    'Calc': {'A1': 1, 'A2': 100, 'B1': '=A1+1', 'C1': '=B1*2', 'D1': '=SUM(B1:C1)+A2', 'E1': '=D1-C1', 'F1': '=rate*2', 'F2': '=Rate*2',
+             'F3': '=IF(total>20,RATE,-1)', 'G1': '=SUM(block)+$A$1', 'G2': '=SUM(Data!B1:B3)', 'G3': '=F2+G1+E1', 'H1': '=Data!C1+A1', 'H2': '=Z9+A1'},
+    'Data': {'B1': 4, 'B2': 6, 'B3': 11, 'C1': '=B1*B2', 'C2': '=SUM(B1:B3)'},
+}
+EXTRACT_NAMES = {'rate': 'Data!$B$2', 'total': 'Data!$C$2', 'block': 'Data!$B$1:$B$3'}
+EXTRACT_FOCI = [['Calc!E1'], ['Calc!F1'], ['Calc!F2'], ['Calc!F3'], ['Calc!G1'], ['Calc!G3'], ['Calc!H1', 'Calc!H2'], ['rate', 'Calc!G2'], ['Calc!C1', 'total']]
+EXTRACT_EDITS = [('Calc!A1', 5), ('Data!B2', 60), ('Data!B1', -4)]
+
+
+def rule_7(ctx):
+    """A witness workbook with two sheets, chains, ranges, defined names for cells and for a range (also spelt in another case),
+    loaded, compiled and evaluated as written; for every focus list ModelCompiler.extract (as written) is evaluated next to the
+    full model: each focused cell / name has the same value in both, before and after the same input changes were applied to
+    both; and the full model is unchanged by the extraction."""
+    from . import workbook as W
+    from . import scenarios as S
+    anchor = ctx.mod('model').func('ModelCompiler.extract')
+    n = 0
+    foci = EXTRACT_FOCI if ctx.tier != 'quick' else EXTRACT_FOCI[::2] + [EXTRACT_FOCI[3], EXTRACT_FOCI[5]]
+    for focus in foci:
+        full = W.Workbook(ctx, sheets=EXTRACT_SHEETS, names=EXTRACT_NAMES)
+        before = S.constants_snapshot(full)
+        for a in focus:         # the usual life of a model: evaluated before it is extracted from
+            full.value(a)
+        sub = full.extracted(focus)
+        after = S.constants_snapshot(full)
+        n += 1
+        ctx.expect(before == after, anchor, f'extraction of {focus} leaves the original model unchanged',
+                   f'cells / formulas / names of the full model differ after extract({focus})')
+        trail = 'no change'
+        for step in [None] + EXTRACT_EDITS:
+            if step is not None:
+                full.set(step[0], step[1])
+                sub.set(step[0], step[1])
+                trail = f'{trail}; {step[0]}={step[1]}' if trail != 'no change' else f'{step[0]}={step[1]}'
+            for a in focus:
+                vf, vs = full.value(a), sub.value(a)
+                n += 1
+                ctx.expect(S.same(vf, vs), anchor, f'focus {focus}: {a} after {trail}',
+                           f'{a} is {vf!r} in the full model and {vs!r} in the model extracted for {focus} (after {trail}): the extracted model '
+                           'must hold everything the focus depends on - cells, ranges, names, however they are spelt in the formulas')
+    ctx.floor(20, 'extracted-model evaluations')
+
+
 RULES = [
     ('C13.1', 'dependency closure of extract', rule_1),
     ('C13.2', 'range terms are not looked up as cells; ranges populated', rule_2),
@@ -238,4 +283,5 @@ RULES = [
     ('C13.4', 'focus handling and compilation', rule_4),
     ('C13.5', 'input changes reach the cells map in both models (shared with C04.4)', rule_5),
     ('C13.6', 'the terms extract() follows are those of the formula itself (shared with C03.1)', rule_6),
+    ('C13.7', 'witness workbook: full and extracted model agree for every focus, before and after the same edits', rule_7),
 ]
